@@ -35,9 +35,11 @@ def params():
     return st.fixed_dictionaries({
         "a": st.lists(gens.angles(), min_size=3, max_size=3),
         "avec": st.lists(gens.angles(), min_size=1, max_size=4),
-        "axis": gens.axis3(-3, 6),
-        "sep": st.one_of(gens.logmag(-3, 0.49), gens.fl(1e-3, PI - 1e-3)),
-        "len2": st.one_of(st.just(1.0), gens.logmag(-3, 6)),
+        "axis": st.one_of(gens.axis3(-3, 6), gens.axis3(-3, 6), gens.axis3(-3, -2)),          # extra weight on short axes (products of two short lengths)
+        "sep": st.one_of(gens.logmag(-3, 0.49), gens.fl(1e-3, PI - 1e-3),
+                         # at and next to a right angle: pi/2 +- 10^-k
+                         st.tuples(st.sampled_from([-1.0, 0.0, 1.0]), st.integers(1, 13)).map(lambda t: PI / 2 + t[0] * 10.0 ** (-t[1]))),
+        "len2": st.one_of(st.just(1.0), gens.logmag(-3, 6), gens.logmag(-3, -1)),
         "perp": gens.direction3(),
         "t": gens.trans(3, -6, 6),
         "unit": st.sampled_from(["rad", "deg"]),
@@ -52,6 +54,7 @@ def params():
         "noise": gens.logmag(-15, -2), "pattern": st.lists(gens.fl(-1, 1), min_size=9, max_size=9),
         "n": st.integers(-8, 8),
         "close": gens.logmag(-9, 0),
+        "vform": st.sampled_from(VFORMS),
     })
 
 
@@ -97,32 +100,55 @@ def _seed(p):
 
 B = lambda: L.base  # noqa
 
+VFORMS = ["list", "list", "list", "tuple", "array", "float32", "float32"]
+
+
+def V(p, v, default="list"):
+    """a vector argument in the container / element type chosen for this case (closure must not depend on it).  float32 /
+    float16 / int32 arrays hold the value rounded to that type (that rounded vector is then the argument); a vector that
+    becomes zero, non-finite or leaves the stated length range is passed in the default form instead."""
+    form = p.get("vform") or default
+    if form == "list" and default == "array":
+        form = "array"
+    a = np.array(v, dtype=float)
+    if form == "list":
+        return [float(x) for x in a]
+    if form == "tuple":
+        return tuple(float(x) for x in a)
+    if form in ("float32", "float16", "int32"):
+        with np.errstate(all="ignore"):
+            b_ = np.rint(a).astype(np.int32) if form == "int32" else a.astype(np.dtype(form))
+        n0, n1 = float(np.linalg.norm(a)), float(np.linalg.norm(b_.astype(float)))
+        if np.all(np.isfinite(b_.astype(float))) and n1 > 0 and 0.5 * n0 <= n1 <= 2 * n0 and n1 >= 1e-3:
+            return b_
+    return a
+
 ENTRIES = {
     # --- base, 3D
     "rotx": lambda p: [(B().rotx(p["a"][0] * _k(p), p["unit"]), "SO3")],
     "roty": lambda p: [(B().roty(p["a"][0] * _k(p), p["unit"]), "SO3")],
     "rotz": lambda p: [(B().rotz(p["a"][0] * _k(p), p["unit"]), "SO3")],
-    "trotx": lambda p: [(B().trotx(p["a"][0] * _k(p), p["unit"], t=list(p["t"])), "SE3")],
-    "troty": lambda p: [(B().troty(p["a"][0] * _k(p), p["unit"], t=list(p["t"])), "SE3")],
-    "trotz": lambda p: [(B().trotz(p["a"][0] * _k(p), p["unit"], t=list(p["t"])), "SE3")],
+    "trotx": lambda p: [(B().trotx(p["a"][0] * _k(p), p["unit"], t=V(p, p["t"])), "SE3")],
+    "troty": lambda p: [(B().troty(p["a"][0] * _k(p), p["unit"], t=V(p, p["t"])), "SE3")],
+    "trotz": lambda p: [(B().trotz(p["a"][0] * _k(p), p["unit"], t=V(p, p["t"])), "SE3")],
     "rpy2r": lambda p: [(B().rpy2r([x * _k(p) for x in p["a"]], unit=p["unit"], order=p["order"]), "SO3"),
                         (B().rpy2r(*[x * _k(p) for x in p["a"]], unit=p["unit"], order=p["order"]), "SO3")],
     "rpy2tr": lambda p: [(B().rpy2tr([x * _k(p) for x in p["a"]], unit=p["unit"], order=p["order"]), "SE3")],
     "eul2r": lambda p: [(B().eul2r([x * _k(p) for x in p["a"]], unit=p["unit"]), "SO3"),
                         (B().eul2r(*[x * _k(p) for x in p["a"]], unit=p["unit"]), "SO3")],
     "eul2tr": lambda p: [(B().eul2tr([x * _k(p) for x in p["a"]], unit=p["unit"]), "SE3")],
-    "angvec2r": lambda p: [(B().angvec2r(p["a"][0] * _k(p), list(p["axis"]), unit=p["unit"]), "SO3")],
-    "angvec2tr": lambda p: [(B().angvec2tr(p["a"][0] * _k(p), list(p["axis"]), unit=p["unit"]), "SE3")],
-    "oa2r": lambda p: [(B().oa2r(list(_second_axis(p)), list(p["axis"])), "SO3")],
-    "oa2tr": lambda p: [(B().oa2tr(list(_second_axis(p)), list(p["axis"])), "SE3")],
-    "trexp/so3": lambda p: [(B().trexp(_rotvec(p)), "SO3"), (B().trexp(refs.skew3(_rotvec(p))), "SO3")],
-    "trexp/se3": lambda p: [(B().trexp(np.r_[arr(p["t"]), _rotvec(p)]), "SE3"), (B().trexp(refs.hat6(arr(p["t"]), _rotvec(p))), "SE3")],
+    "angvec2r": lambda p: [(B().angvec2r(p["a"][0] * _k(p), V(p, p["axis"]), unit=p["unit"]), "SO3")],
+    "angvec2tr": lambda p: [(B().angvec2tr(p["a"][0] * _k(p), V(p, p["axis"]), unit=p["unit"]), "SE3")],
+    "oa2r": lambda p: [(B().oa2r(V(p, _second_axis(p)), V(p, p["axis"])), "SO3")],
+    "oa2tr": lambda p: [(B().oa2tr(V(p, _second_axis(p)), V(p, p["axis"])), "SE3")],
+    "trexp/so3": lambda p: [(B().trexp(V(p, _rotvec(p))), "SO3"), (B().trexp(refs.skew3(_rotvec(p))), "SO3")],
+    "trexp/se3": lambda p: [(B().trexp(V(p, np.r_[arr(p["t"]), _rotvec(p)], "array")), "SE3"), (B().trexp(refs.hat6(arr(p["t"]), _rotvec(p))), "SE3")],
     "trexp/theta": lambda p: [(B().trexp(refs.unit(p["axis"]), p["a"][0]), "SO3"),
                               (B().trexp(np.r_[arr(p["t"]), refs.unit(p["axis"])], p["a"][0]), "SE3")],
-    "rodrigues": lambda p: [(B().rodrigues(_rotvec(p)), "SO3"), (B().rodrigues(refs.unit(p["axis"]), p["a"][0]), "SO3"),
+    "rodrigues": lambda p: [(B().rodrigues(V(p, _rotvec(p))), "SO3"), (B().rodrigues(refs.unit(p["axis"]), p["a"][0]), "SO3"),
                             (B().rodrigues([p["a"][0]]), "SO2")],
-    "q2r(unit)": lambda p: [(B().q2r(B().unit(np.array(p["q"]))), "SO3")],
-    "unit": lambda p: [(B().unit(np.array(p["q"])), "q")],
+    "q2r(unit)": lambda p: [(B().q2r(B().unit(V(p, p["q"], "array"))), "SO3")],
+    "unit": lambda p: [(B().unit(V(p, p["q"], "array")), "q")],
     "trnorm": lambda p: [(B().trnorm(_noisy(p, False)), "SO3"), (B().trnorm(_noisy(p, True)), "SE3")],
     "trinterp": lambda p: [(B().trinterp(refs.pose3_of(p["X"]), refs.pose3_of(p["Y"]), p["s"]), "SE3"),
                            (B().trinterp(None, refs.pose3_of(p["Y"]), p["s"]), "SE3"),
@@ -137,12 +163,12 @@ ENTRIES = {
                                (L.UnitQuaternion(refs.rodrigues(p["axis"], p["close"])).interp(p["s"]), "q")],
     "slerp": lambda p: [(B().slerp(refs.q_of(p["X"]["rot"]), refs.q_of(p["Y"]["rot"]), p["s"], True), "q")],
     "rand": lambda p: (_seed(p), [(B().rand(), "q"), (B().q2r(B().rand()), "SO3")])[1],
-    "transl": lambda p: [(B().transl(list(p["t"])), "SE3"), (B().transl(*p["t"]), "SE3")],
+    "transl": lambda p: [(B().transl(V(p, p["t"])), "SE3"), (B().transl(*p["t"]), "SE3")],
     # --- base, 2D
     "rot2": lambda p: [(B().rot2(p["a"][0] * _k(p), p["unit"]), "SO2")],
-    "trot2": lambda p: [(B().trot2(p["a"][0] * _k(p), p["unit"], t=list(p["t"][:2])), "SE2")],
+    "trot2": lambda p: [(B().trot2(p["a"][0] * _k(p), p["unit"], t=V(p, p["t"][:2])), "SE2")],
     "xyt2tr": lambda p: [(B().xyt2tr([p["t"][0], p["t"][1], p["a"][0] * _k(p)], p["unit"]), "SE2")],
-    "transl2": lambda p: [(B().transl2(list(p["t"][:2])), "SE2"), (B().transl2(p["t"][0], p["t"][1]), "SE2")],
+    "transl2": lambda p: [(B().transl2(V(p, p["t"][:2])), "SE2"), (B().transl2(p["t"][0], p["t"][1]), "SE2")],
     "trexp2": lambda p: [(B().trexp2([p["rotvec_mag"]]), "SO2"), (B().trexp2(np.r_[arr(p["t"][:2]), p["rotvec_mag"]]), "SE2"),
                          (B().trexp2(refs.hat3(arr(p["t"][:2]), p["rotvec_mag"])), "SE2")],
     "trinterp2": lambda p: [(B().trinterp2(refs.pose2_of(p["X2"]), refs.pose2_of(p["Y2"]), p["s"]), "SE2"),
@@ -151,23 +177,23 @@ ENTRIES = {
     "SO3.Rx": lambda p: [(L.SO3.Rx(p["a"][0] * _k(p), p["unit"]), "SO3"), (L.SO3.Rx([x * _k(p) for x in p["avec"]], p["unit"]), "SO3")],
     "SO3.Ry": lambda p: [(L.SO3.Ry(p["a"][0] * _k(p), p["unit"]), "SO3"), (L.SO3.Ry([x * _k(p) for x in p["avec"]], p["unit"]), "SO3")],
     "SO3.Rz": lambda p: [(L.SO3.Rz(p["a"][0] * _k(p), p["unit"]), "SO3"), (L.SO3.Rz([x * _k(p) for x in p["avec"]], p["unit"]), "SO3")],
-    "SE3.Rx": lambda p: [(L.SE3.Rx(p["a"][0] * _k(p), p["unit"], t=list(p["t"])), "SE3"), (L.SE3.Rx([x * _k(p) for x in p["avec"]], p["unit"]), "SE3")],
-    "SE3.Ry": lambda p: [(L.SE3.Ry(p["a"][0] * _k(p), p["unit"], t=list(p["t"])), "SE3"), (L.SE3.Ry([x * _k(p) for x in p["avec"]], p["unit"]), "SE3")],
-    "SE3.Rz": lambda p: [(L.SE3.Rz(p["a"][0] * _k(p), p["unit"], t=list(p["t"])), "SE3"), (L.SE3.Rz([x * _k(p) for x in p["avec"]], p["unit"]), "SE3")],
+    "SE3.Rx": lambda p: [(L.SE3.Rx(p["a"][0] * _k(p), p["unit"], t=V(p, p["t"])), "SE3"), (L.SE3.Rx([x * _k(p) for x in p["avec"]], p["unit"]), "SE3")],
+    "SE3.Ry": lambda p: [(L.SE3.Ry(p["a"][0] * _k(p), p["unit"], t=V(p, p["t"])), "SE3"), (L.SE3.Ry([x * _k(p) for x in p["avec"]], p["unit"]), "SE3")],
+    "SE3.Rz": lambda p: [(L.SE3.Rz(p["a"][0] * _k(p), p["unit"], t=V(p, p["t"])), "SE3"), (L.SE3.Rz([x * _k(p) for x in p["avec"]], p["unit"]), "SE3")],
     "UQ.Rx": lambda p: [(L.UnitQuaternion.Rx(p["a"][0] * _k(p), p["unit"]), "q"), (L.UnitQuaternion.Rx([x * _k(p) for x in p["avec"]], p["unit"]), "q")],
     "UQ.Ry": lambda p: [(L.UnitQuaternion.Ry(p["a"][0] * _k(p), p["unit"]), "q")],
     "UQ.Rz": lambda p: [(L.UnitQuaternion.Rz(p["a"][0] * _k(p), p["unit"]), "q")],
     "RPY": lambda p: [(getattr(L, c).RPY([x * _k(p) for x in p["a"]], order=p["order"], unit=p["unit"]), k) for c, k in (("SO3", "SO3"), ("SE3", "SE3"), ("UnitQuaternion", "q"))],
     "Eul": lambda p: [(getattr(L, c).Eul([x * _k(p) for x in p["a"]], unit=p["unit"]), k) for c, k in (("SO3", "SO3"), ("SE3", "SE3"), ("UnitQuaternion", "q"))],
-    "AngVec": lambda p: [(getattr(L, c).AngVec(p["a"][0] * _k(p), list(p["axis"]), unit=p["unit"]), k) for c, k in (("SO3", "SO3"), ("SE3", "SE3"), ("UnitQuaternion", "q"))],
-    "EulerVec": lambda p: [(getattr(L, c).EulerVec(list(_rotvec(p))), k) for c, k in (("SO3", "SO3"), ("SE3", "SE3"), ("UnitQuaternion", "q"))],
-    "OA": lambda p: [(getattr(L, c).OA(list(_second_axis(p)), list(p["axis"])), k) for c, k in (("SO3", "SO3"), ("SE3", "SE3"), ("UnitQuaternion", "q"))],
-    "Exp": lambda p: [(L.SO3.Exp(_rotvec(p)), "SO3"), (L.SE3.Exp(np.r_[arr(p["t"]), _rotvec(p)]), "SE3"),
+    "AngVec": lambda p: [(getattr(L, c).AngVec(p["a"][0] * _k(p), V(p, p["axis"]), unit=p["unit"]), k) for c, k in (("SO3", "SO3"), ("SE3", "SE3"), ("UnitQuaternion", "q"))],
+    "EulerVec": lambda p: [(getattr(L, c).EulerVec(V(p, _rotvec(p))), k) for c, k in (("SO3", "SO3"), ("SE3", "SE3"), ("UnitQuaternion", "q"))],
+    "OA": lambda p: [(getattr(L, c).OA(V(p, _second_axis(p)), V(p, p["axis"])), k) for c, k in (("SO3", "SO3"), ("SE3", "SE3"), ("UnitQuaternion", "q"))],
+    "Exp": lambda p: [(L.SO3.Exp(V(p, _rotvec(p), "array")), "SO3"), (L.SE3.Exp(V(p, np.r_[arr(p["t"]), _rotvec(p)], "array")), "SE3"),
                       (L.SO2.Exp(np.array([p["rotvec_mag"]])), "SO2"), (L.SE2.Exp(np.r_[arr(p["t"][:2]), p["rotvec_mag"]]), "SE2")],
     "Rand": lambda p: (_seed(p), [(L.SO3.Rand(N=p["nvals"]), "SO3"), (L.SE3.Rand(N=p["nvals"]), "SE3"), (L.UnitQuaternion.Rand(N=p["nvals"]), "q"),
                                   (L.SO2.Rand(N=p["nvals"]), "SO2"), (L.SE2.Rand(N=p["nvals"]), "SE2")])[1],
-    "SE3(x,y,z)": lambda p: [(L.SE3(*p["t"]), "SE3"), (L.SE3(list(p["t"])), "SE3"), (L.SE3.Tx(p["t"][0]), "SE3"), (L.SE3.Ty([p["t"][1], 1.0]), "SE3"), (L.SE3.Tz(p["t"][2]), "SE3")],
-    "UQ(s,v)": lambda p: [(L.UnitQuaternion(p["q"][0], p["q"][1:]), "q"), (L.UnitQuaternion(list(p["q"])), "q")],
+    "SE3(x,y,z)": lambda p: [(L.SE3(*p["t"]), "SE3"), (L.SE3(V(p, p["t"])), "SE3"), (L.SE3.Tx(p["t"][0]), "SE3"), (L.SE3.Ty([p["t"][1], 1.0]), "SE3"), (L.SE3.Tz(p["t"][2]), "SE3")],
+    "UQ(s,v)": lambda p: [(L.UnitQuaternion(p["q"][0], V(p, p["q"][1:])), "q"), (L.UnitQuaternion(V(p, p["q"])), "q")],
     "UQ(R)": lambda p: [(L.UnitQuaternion(refs.pose3_of(p["X"])[:3, :3].copy()), "q"), (L.UnitQuaternion(refs.pose3_of(p["X"])), "q"),
                         (L.UnitQuaternion(L.SO3(refs.pose3_of(p["X"])[:3, :3].copy())), "q")],
     "SO2(theta)": lambda p: [(L.SO2(p["a"][0] * _k(p), unit=p["unit"]), "SO2"), (L.SO2([x * _k(p) for x in p["avec"]], unit=p["unit"]), "SO2")],
